@@ -11,6 +11,8 @@ import (
 	"fmt"
 	"os"
 	"path/filepath"
+	"runtime"
+	"runtime/debug"
 	"sort"
 	"strings"
 	"time"
@@ -232,6 +234,17 @@ func Safe(f func()) (panicked string) {
 	defer func() {
 		if r := recover(); r != nil {
 			panicked = fmt.Sprint(r)
+			// where in tabula: the first few frames inside the library
+			n := 0
+			for _, line := range strings.Split(string(debug.Stack()), "\n") {
+				if strings.Contains(line, "/repo/") || (strings.Contains(line, "tabula") && strings.Contains(line, ".go:")) {
+					panicked += " @ " + strings.TrimSpace(line)
+					n++
+					if n >= 3 {
+						break
+					}
+				}
+			}
 		}
 	}()
 	f()
@@ -267,20 +280,45 @@ func Remarshal(in interface{}, out interface{}) error {
 func (c *Ctx) Guard(prefix string, kase interface{}, seconds int, f func()) bool {
 	done := make(chan string, 1)
 	go func() { done <- Safe(f) }()
-	select {
-	case msg := <-done:
-		if msg != "" {
-			c.Check(prefix+"/panic", false, kase, func() string { return msg })
-			return false
+	deadline := time.After(time.Duration(seconds) * time.Second)
+	tick := time.NewTicker(100 * time.Millisecond)
+	defer tick.Stop()
+	for {
+		select {
+		case msg := <-done:
+			if msg != "" {
+				c.Check(prefix+"/panic", false, kase, func() string { return msg })
+				return false
+			}
+			return true
+		case <-tick.C:
+			var ms runtime.MemStats
+			runtime.ReadMemStats(&ms)
+			if ms.HeapInuse > MemLimit {
+				c.Check(prefix+"/memory", false, kase, func() string {
+					return fmt.Sprintf("heap grew to %d MiB during one implementation call", ms.HeapInuse>>20)
+				})
+				c.Note("aborted after excessive allocation; remaining cases not run")
+				c.Finish()
+				os.Exit(3)
+			}
+		case <-deadline:
+			c.Check(prefix+"/hang", false, kase, func() string {
+				return fmt.Sprintf("implementation call did not return within %d s", seconds)
+			})
+			c.Note("aborted after a hang; remaining cases not run")
+			c.Finish()
+			os.Exit(3)
 		}
-		return true
-	case <-time.After(time.Duration(seconds) * time.Second):
-		c.Check(prefix+"/hang", false, kase, func() string {
-			return fmt.Sprintf("implementation call did not return within %d s", seconds)
-		})
-		c.Note("aborted after a hang; remaining cases not run")
-		c.Finish()
-		os.Exit(3)
 	}
-	return false
+}
+
+// MemLimit is the heap size at which Guard aborts the run (excessive allocation).
+var MemLimit uint64 = 3 << 30
+
+// Current records the case about to run, so that a crash that kills the whole
+// process (stack exhaustion, out of memory) still leaves a replayable input behind.
+func (c *Ctx) Current(kase interface{}) {
+	b, _ := json.Marshal(kase)
+	os.WriteFile(filepath.Join(c.OutDir, "current.json"), b, 0o644)
 }
